@@ -305,7 +305,9 @@ class C11(Prop):
         G = 1 << 30
         ops = [["gb", c, 8, q] for c, q in
                [(64, G + rng.randrange(1, 1 << 20)), (rng.randrange(1 << 20, G), G - 8 + rng.randrange(0, 3)),
-                (G // 2 + rng.randrange(0, 4096), G // 2 + rng.randrange(0, 4096))]]
+                (lambda c: (c, c - 8 + rng.randrange(0, 4096)))(G // 2 + rng.randrange(0, 4096))]]
+        # (every request needs growth: offset + n >= the capacity the harness claims - the claimed capacity has no memory
+        # behind it, so a Grow that rightly does nothing would leave the harness's 64 real bytes on show)
         cases.append(Case("gc0", "growcap", [], ops, tags={"growcap"}))
         for j in range(n):
             if j % 2 == 0:
@@ -381,7 +383,11 @@ class C11(Prop):
                 if fs[0] == "gb":
                     cur, off, n = int(fs[1]), int(fs[2]), int(fs[3])
                     got = l.split()
-                    if len(got) != 2 or int(got[0]) < off + n or int(got[1]) < off + n:
+                    if off + n < cur:
+                        # enough capacity already (the harness only claimed it): Grow must leave the buffer alone
+                        if len(got) != 2 or int(got[0]) != cur:
+                            fails.append("op %d `%s` -> `%s`: Grow(%d) at offset %d with capacity %d must not change the capacity" % (i, op, l, n, off, cur))
+                    elif len(got) != 2 or int(got[0]) < off + n or int(got[1]) < off + n:
                         fails.append("op %d `%s` -> `%s`: after Grow(%d) at offset %d the capacity must be at least %d" % (i, op, l, n, off, off + n))
             return fails
         if not self.well_formed(case):
